@@ -703,6 +703,68 @@ def _dedup(xs):
 
 # table programs ----------------------------------------------------------------------------------------------------------
 
+H_RANK = {'Boolean': 0, 'Int32': 1, 'Int64': 2, 'Float32': 3, 'Float64': 4}
+
+
+def _parse_tt(line):
+    m = re.match(r'g=(\S+) r=(\S+) k=(\S*)$', line)
+    g, r = parse_type(m.group(1)), parse_type(m.group(2))
+    return [(n, show_type(t)) for n, t in g[1]], [(n, show_type(t)) for n, t in r[1]], [k for k in m.group(3).split(',') if k]
+
+
+def _show_tt(g, r, k):
+    return ('g=Struct{' + ','.join(f'{n}:{t}' for n, t in g) + '} r=Struct{' + ','.join(f'{n}:{t}' for n, t in r) + '} k=' + ','.join(k))
+
+
+def py_union(unify, branch_texts):
+    """API contract of t0.union(t1, …, unify=…) on the branch pipelines (oracle side): -> result line, or None when the call must be
+    refused.  The result is well typed by construction: every table is brought to the same row type."""
+    tabs = []
+    for texts in branch_texts:
+        line = py_table(texts)
+        if line is None:
+            return None
+        tabs.append(_parse_tt(line))
+    keys = [[(k, dict(r)[k]) for k in key] for _, r, key in tabs]
+    if any(k != keys[0] for k in keys[1:]):
+        return None
+    g0, r0, k0 = tabs[0]
+    if not unify:
+        return _show_tt(g0, r0, k0) if all(r == r0 for _, r, _ in tabs[1:]) else None
+    vals = [[(n, t) for n, t in r if n not in key] for _, r, key in tabs]
+    if all(r == r0 for _, r, _ in tabs[1:]):
+        return _show_tt(g0, r0, k0)
+    names = []
+    for v in vals:
+        for n, _ in v:
+            if n not in names:
+                names.append(n)
+    fields = []
+    for n in names:
+        ts = [dict(v)[n] for v in vals if n in dict(v)]
+        if all(t == ts[0] for t in ts):
+            u = ts[0]
+        elif all(t in H_RANK for t in ts):
+            u = max(ts, key=lambda t: H_RANK[t])
+        else:
+            return None
+        fields.append((n, u))
+    return _show_tt(g0, keys[0] + fields, k0)
+
+
+def py_join(left_texts, right_texts):
+    a, b = py_table(left_texts), py_table(right_texts)
+    if a is None or b is None:
+        return None
+    (gl, rl, kl), (gr, rr, kr) = _parse_tt(a), _parse_tt(b)
+    if [dict(rl)[k] for k in kl] != [dict(rr)[k] for k in kr]:
+        return None
+    new = [n for n, _ in rr if n not in kr] + [n for n, _ in gr]
+    if any(n in dict(rl) or n in dict(gl) for n in new):
+        return None
+    return _show_tt(gl + gr, [(k, dict(rl)[k]) for k in kl] + [(n, t) for n, t in rl if n not in kl] + [(n, t) for n, t in rr if n not in kr], kl)
+
+
 def py_table(texts):
     """the documented type contract of the Table API calls, on the op texts (oracle side, independent of the Lean model):
     -> (globals, row, key) with globals / row as ordered lists of (name, type text), or None when a call must be refused"""
@@ -813,7 +875,10 @@ class C36(Prop):
             'function widens the zero), field access, annotate — every node of the emitted IR is rendered with the type the front end '
             'attached to it (every Ref with the type it was built with) and the model / the twin rules re-derive all of them; impute (35%) = random nested Python value (None, bool, int incl. 32/64-bit boundaries, float, str, list, '
             'tuple, frozenset, dict, hl.Struct; homogeneous and heterogeneous); table (20%) = 1-6 Table API calls (annotate, '
-            'annotate_globals, select, drop, key_by, filter, order_by, rename, explode) from range_table.  non-trivial = the front end '
+'annotate_globals, select, drop, key_by, filter, order_by, rename, explode) from range_table; tunion (10%) = t0.union(t1, … '
+            'unify=False/True) of 2-4 such pipelines (fields present / absent / of different numeric types / reordered / key field moved '
+            'inside the row / clashing / keys differing), checked against the TableUnion rule that all children carry the result\'s row '
+            'type and key; tjoin (3%) = l.join(r).  non-trivial = the front end '
             'accepted the program / produced a type; distinct by full case')
     trusted = ['harness/hailenv.py StubBackend (no engine); decorator / deprecated / parsimonious shims on the import path of `hail`; '
                'pandas is an inert stub (pd.isna is only reached for values impute_type does not know)',
@@ -1022,13 +1087,13 @@ class C36(Prop):
             return hl.struct(u=x, v=hl.float64(x))
         raise ValueError(ty)
 
-    def run_table(self, c):
-        """-> ('ok', front-end line, ir line, op texts for the model) | ('rejected', why, op texts)"""
+    def run_pipeline(self, ops, texts):
+        """apply the ops to range_table(10); the op texts for the model are appended to `texts` as the calls are made"""
         hl = self.hl
         ht = hl.utils.range_table(10)
-        texts = ['range']
-        try:
-            for op in c['ops']:
+        texts.append('range')
+        if True:
+            for op in ops:
                 k = op[0]
                 if k in ('annotate', 'annotate_globals'):
                     named = {}
@@ -1060,17 +1125,38 @@ class C36(Prop):
                     ht = ht.explode(op[1])
                 else:
                     raise ValueError(k)
+        return ht
+
+    @staticmethod
+    def tt_line(g, r, k):
+        return f'g={g._parsable_string()} r={r._parsable_string()} k=' + ','.join(k)
+
+    def ir_line(self, tir):
+        """the table type the emitted TableIR implies: its own deep typecheck, plus the engine's rule for TableUnion (TypeCheck.scala:
+        every child has the row type and the key of child 0), which the Python `_compute_type` does not look at"""
+        from hail import ir
+        try:
+            tir.compute_type(deep_typecheck=True)
+        except AssertionError as ex:
+            return f'deep-typecheck-assertion {str(ex)[:120]}'
+        for u in tir.base_search(lambda x: isinstance(x, ir.TableUnion)):
+            c0 = u.children[0].typ
+            if any(c.typ.row_type != c0.row_type or list(c.typ.row_key) != list(c0.row_key) for c in u.children[1:]):
+                return 'ill-typed'
+        tt = tir.typ
+        return self.tt_line(tt.global_type, tt.row_type, tt.row_key)
+
+    def run_table(self, c):
+        """-> ('ok', front-end line, ir line, op texts for the model, extra) | ('rejected', why, op texts) | ('assert', why, op texts)"""
+        texts = []
+        try:
+            ht = self.run_pipeline(c['ops'], texts)
         except AssertionError as ex:
             return ('assert', f'AssertionError {str(ex)[:200]}', texts)
         except Exception as ex:
             return ('rejected', type(ex).__name__, texts)
-        fe = (f'g={ht.globals.dtype._parsable_string()} r={ht.row.dtype._parsable_string()} k=' + ','.join(ht.key))
-        try:
-            ht._tir.compute_type(deep_typecheck=True)
-            tt = ht._tir.typ
-            it = f'g={tt.global_type._parsable_string()} r={tt.row_type._parsable_string()} k=' + ','.join(tt.row_key)
-        except AssertionError as ex:
-            it = f'deep-typecheck-assertion {str(ex)[:120]}'
+        fe = self.tt_line(ht.globals.dtype, ht.row.dtype, list(ht.key))
+        it = self.ir_line(ht._tir)
         extra = None
         # the key struct and every field expression carry the row type's field types
         want_key = 'Struct{' + ','.join(f'{k}:{ht.row.dtype[k]._parsable_string()}' for k in ht.key) + '}'
@@ -1081,6 +1167,36 @@ class C36(Prop):
                 extra = f'table[{f!r}].dtype = {ht[f].dtype} but the row type says {ht.row.dtype[f]}'
         return ('ok', fe, it, texts, extra)
 
+    def run_combo(self, c):
+        """union / join of pipelines -> ('ok', front-end line, ir line, [branch texts], note) | ('rejected', why, texts) | ('assert', …)"""
+        branches = c['tables'] if c['kind'] == 'tunion' else [c['left'], c['right']]
+        texts = [[] for _ in branches]
+        try:
+            hts = [self.run_pipeline(ops, t) for ops, t in zip(branches, texts)]
+        except AssertionError as ex:
+            return ('assert', f'AssertionError {str(ex)[:200]}', texts)
+        except Exception as ex:
+            return ('rejected', 'pipeline:' + type(ex).__name__, texts)
+        try:
+            if c['kind'] == 'tunion':
+                ht = hts[0].union(*hts[1:], unify=bool(c['unify']))
+            else:
+                ht = hts[0].join(hts[1])
+        except AssertionError as ex:
+            return ('assert', f'AssertionError {str(ex)[:200]}', texts)
+        except Exception as ex:
+            return ('rejected', type(ex).__name__, texts)
+        fe = self.tt_line(ht.globals.dtype, ht.row.dtype, list(ht.key))
+        it = self.ir_line(ht._tir)
+        note = None
+        if it == 'ill-typed':
+            from hail import ir
+            u = ht._tir.base_search(lambda x: isinstance(x, ir.TableUnion))[0]
+            rows = [str(ch.typ.row_type) for ch in u.children]
+            same_values = len({str(ch.typ.value_type) for ch in u.children}) == 1 and len({str(ch.typ.key_type) for ch in u.children}) == 1
+            note = ('key-position' if same_values else 'other', rows)
+        return ('ok', fe, it, texts, note)
+
     def _global_expr(self, ty):
         hl = self.hl
         return {'i32': lambda: hl.int32(5), 'i64': lambda: hl.int64(5), 'f64': lambda: hl.float64(2), 'bool': lambda: hl.literal(True),
@@ -1088,19 +1204,19 @@ class C36(Prop):
                 'st': lambda: hl.struct(u=hl.int32(1), v=hl.float64(1))}[ty]()
 
     # ---- cases ----------------------------------------------------------------------------------------------------
-    def gen_table(self, rng):
+    def gen_table(self, rng, prefix='f', kinds=None):
         row = {'idx': 'i32'}           # name -> generator type
         glob = {}
         key = ['idx']
         ops = []
-        fresh = iter(f'f{i}' for i in range(100))
+        fresh = iter(f'{prefix}{i}' for i in range(100))
         for _ in range(rng.choice([1, 2, 3, 4, 5, 6])):
             ints = [n for n, t in row.items() if t == 'i32']
             if not ints:
                 break
             nonkey = [n for n in row if n not in key]
-            k = rng.choice(['annotate', 'annotate', 'annotate', 'select', 'drop', 'key_by', 'key_by', 'filter', 'order_by', 'rename', 'explode',
-                            'annotate_globals'])
+            k = rng.choice(kinds or ['annotate', 'annotate', 'annotate', 'select', 'drop', 'key_by', 'key_by', 'filter', 'order_by', 'rename',
+                                     'explode', 'annotate_globals'])
             if k == 'annotate':
                 named = []
                 for _ in range(rng.choice([1, 2, 3])):
@@ -1154,10 +1270,68 @@ class C36(Prop):
                 row[n] = 'i32'
         return {'kind': 'table', 'ops': ops}
 
+    def gen_union(self, rng):
+        """2-4 tables for t0.union(t1, …): a shared plan of field names; per table each field is present or absent, numeric fields get
+        a numeric type of their own (int32 / int64 / float64), the order is shuffled, the key field may sit anywhere in the row,
+        occasionally a field clashes (str vs number) or the keys differ"""
+        n = rng.choice([2, 2, 3, 3, 4])
+        unify = rng.random() < 0.7
+        plan = []
+        for nm in rng.sample(['a', 'b', 'c', 'd', 'e'], rng.choice([1, 2, 3, 4])):
+            plan.append((nm, rng.choice(['num', 'num', 'num', 'str', 'bool', 'arr', 'st'])))
+        same = (not unify and rng.random() < 0.7) or rng.random() < 0.15
+        keymode = rng.choice(['idx', 'idx', 'idx', 'none', 'field'])
+        tables = []
+        base = None
+        for i in range(n):
+            fields = []
+            for nm, fam in plan:
+                if not same and rng.random() < 0.3:
+                    continue
+                ty = rng.choice(['i32', 'i32', 'i64', 'f64']) if fam == 'num' else fam
+                if fam != 'num' and not same and rng.random() < 0.04:
+                    ty = 'i32' if fam != 'i32' else 'str'      # a clash the front end must refuse
+                fields.append([nm, ty, 'idx'])
+            if same:
+                if base is None:
+                    base = fields
+                fields = [list(f) for f in base]
+            elif unify:
+                rng.shuffle(fields)
+            ops = [['annotate', fields]] if fields else []
+            if rng.random() < 0.25:
+                # move the key field inside the row: unkey, reorder, key again
+                order = [f[0] for f in fields] + ['idx']
+                rng.shuffle(order)
+                ops += [['key_by', []], ['select', order, []]]
+                ops += [] if keymode == 'none' else [['key_by', ['idx']]]
+            elif keymode == 'none':
+                ops.append(['key_by', []])
+            if keymode == 'field' and fields and rng.random() < 0.8:
+                ops.append(['key_by', [fields[0][0]] + (['idx'] if rng.random() < 0.5 else [])])
+            if rng.random() < 0.2:
+                ops.append(['annotate_globals', [[f'g{i}', rng.choice(FIELD_TYPES), None]]])
+            if rng.random() < 0.15:
+                ops.append(['filter', 'idx'])
+            tables.append(ops)
+        return {'kind': 'tunion', 'unify': unify, 'tables': tables}
+
+    def gen_join(self, rng):
+        left = self.gen_table(rng, 'f', ['annotate', 'annotate', 'annotate_globals', 'key_by', 'filter', 'select', 'drop'])['ops']
+        right = self.gen_table(rng, 'r', ['annotate', 'annotate', 'annotate_globals', 'filter', 'explode'])['ops']     # stays keyed by idx: no name collisions
+        return {'kind': 'tjoin', 'left': left, 'right': right}
+
     def cases(self, rng, n, tier):
         g = ExprGen(rng)
         for _ in range(n):
             r = rng.random()
+            if r < 0.1:
+                yield self.gen_union(rng)
+                continue
+            if r < 0.13:
+                yield self.gen_join(rng)
+                continue
+            r = (r - 0.13) / 0.87
             if r < 0.45:
                 yield {'kind': 'expr', 'prog': g.any_expr(rng.choice([1, 2, 2, 3, 3, 4]))}
             elif r < 0.8:
@@ -1174,6 +1348,17 @@ class C36(Prop):
             return [f'infer ||| - ||| {r[3]}'] * 2
         if c['kind'] == 'impute':
             return ['impute ||| ' + sexp_of_json(c['value'])]
+        if c['kind'] in ('tunion', 'tjoin'):
+            r = self.run_combo(c)
+            if r[0] == 'assert':
+                return ['echo ||| assert'] * 2
+            if r[0] == 'rejected' and r[1].startswith('pipeline:'):
+                return ['echo ||| none'] * 2          # a branch pipeline itself is refused (covered by the `table` cases)
+            texts = r[3] if r[0] == 'ok' else r[2]
+            bs = ' ||| '.join(' ; '.join(t) for t in texts)
+            if c['kind'] == 'tjoin':
+                return [f'tjoin ||| {bs}'] * 2
+            return [f'tunion-reported ||| {int(c["unify"])} ||| {bs}', f'tunion-ir ||| {int(c["unify"])} ||| {bs}']
         r = self.run_table(c)
         if r[0] != 'ok':
             return [f'echo ||| {r[0]}'] * 2 if r[0] == 'assert' else ['table ||| ' + ' ; '.join(r[2])] * 2
@@ -1191,6 +1376,13 @@ class C36(Prop):
                 return ['t=none ok=0']
             tt = parse_type(t._parsable_string())
             return [f't={show_type(norm_type(tt))} ok={int(py_check(tt, c["value"]))}']
+        if c['kind'] in ('tunion', 'tjoin'):
+            r = self.run_combo(c)
+            if r[0] == 'assert':
+                return ['assert'] * 2
+            if r[0] == 'rejected':
+                return ['none'] * 2
+            return [r[1], r[2]]
         r = self.run_table(c)
         if r[0] == 'assert':
             return ['assert'] * 2
@@ -1240,6 +1432,26 @@ class C36(Prop):
                         why = f'rendering the literal raises {type(ex).__name__}: {ex}'
                     return f'hl.literal({v!r}).dtype = {lit.dtype}, a type the value cannot be stored at; {why}'
             return None
+        if c['kind'] in ('tunion', 'tjoin'):
+            r = self.run_combo(c)
+            if r[0] == 'assert':
+                return f'assertion inside the front end while building the table: {r[1]}'
+            if r[0] == 'rejected' and r[1].startswith('pipeline:'):
+                return None
+            texts = r[3] if r[0] == 'ok' else r[2]
+            want = py_union(c['unify'], texts) if c['kind'] == 'tunion' else py_join(texts[0], texts[1])
+            call = ' UNION '.join(' ; '.join(t) for t in texts) if c['kind'] == 'tunion' else ' ; '.join(texts[0]) + ' JOIN ' + ' ; '.join(texts[1])
+            if r[0] == 'rejected':
+                return None if want is None else f'the front end refuses ({r[1]}) a call the API contract types as {want}: {call}'
+            _, fe, it, _, note = r
+            if it == 'ill-typed':
+                return (f'[ill-typed-union:{note[0]}] Table reports {fe} but the children of the emitted TableUnion have different row '
+                        f'types {note[1]} (the engine requires them equal): {call}')
+            if fe != it:
+                return f'Table reports {fe} but the emitted TableIR computes {it}: {call}'
+            if want != fe:
+                return f'Table reports {fe} but the API contract gives {want} for {call}'
+            return None
         r = self.run_table(c)
         if r[0] == 'rejected':
             want = py_table(r[2])
@@ -1258,6 +1470,11 @@ class C36(Prop):
         if out and out[0].startswith('IMPL-EXC'):
             return out[0]
         msg = self.check(c)
+        if msg is not None and msg.startswith('[ill-typed-union:key-position]'):
+            # known defect: with unify=True tables whose VALUE fields and key already agree are passed to TableUnion unchanged even
+            # when their rows differ in where the key fields sit; attributed only when value type and key type of all children agree
+            self.stats['known']['union-key-position'] = self.stats['known'].get('union-key-position', 0) + 1
+            return '[class=union-key-position] ' + msg
         if msg is None or c['kind'] != 'impute':
             return msg
         for cls in ('struct-union', 'clash-refilled'):
@@ -1326,6 +1543,20 @@ class C36(Prop):
                 if f'"{k}"' in s:
                     tags.append('value-has:' + k)
             nontrivial = ok
+        elif kind in ('tunion', 'tjoin'):
+            r = self.run_combo(c)
+            tags.append(f'{kind}:' + r[0])
+            if kind == 'tunion':
+                tags.append('tunion:unify=%d' % int(c['unify']))
+                tags.append('tunion:tables=%d' % len(c['tables']))
+                if r[0] == 'ok':
+                    tags.append('tunion:' + ('ill-typed' if r[2] == 'ill-typed' else 'well-typed'))
+                    tys = [re.findall(r'=(Int32|Int64|Float64)', ' '.join(t)) for t in r[3]]
+                    if len({tuple(sorted(set(x))) for x in tys}) > 1:
+                        tags.append('tunion:numeric-types-differ-between-tables')
+                    if len({len(' '.join(t).split('annotate ')[1].split('&')) if 'annotate ' in ' '.join(t) else 0 for t in r[3]}) > 1:
+                        tags.append('tunion:field-sets-differ')
+            nontrivial = r[0] == 'ok'
         else:
             r = self.run_table(c)
             tags.append('table:' + r[0])
@@ -1337,7 +1568,7 @@ class C36(Prop):
         return (json.dumps(c, sort_keys=True) if nontrivial else None, tags)
 
     def extra_coverage(self):
-        return {'failures_attributed_to_known_defects': dict(self.stats['known'])}
+        return {'failures_attributed_to_known_defects': dict(getattr(self, 'stats', {'known': {}})['known'])}
 
     # ---- shrinking ------------------------------------------------------------------------------------------------
     def shrink(self, c, fails):
@@ -1363,6 +1594,29 @@ class C36(Prop):
                         changed = True
                         break
             return {'kind': 'impute', 'value': cur}
+        if c['kind'] == 'tunion':
+            cur = c
+            changed = True
+            while changed:
+                changed = False
+                cands = []
+                if len(cur['tables']) > 2:
+                    cands += [dict(cur, tables=cur['tables'][:i] + cur['tables'][i + 1:]) for i in range(len(cur['tables']))]
+                for i, ops in enumerate(cur['tables']):
+                    for j in range(len(ops)):
+                        cands.append(dict(cur, tables=cur['tables'][:i] + [ops[:j] + ops[j + 1:]] + cur['tables'][i + 1:]))
+                        if ops[j][0] == 'annotate' and len(ops[j][1]) > 1:
+                            for k in range(len(ops[j][1])):
+                                op2 = ['annotate', ops[j][1][:k] + ops[j][1][k + 1:]]
+                                cands.append(dict(cur, tables=cur['tables'][:i] + [ops[:j] + [op2] + ops[j + 1:]] + cur['tables'][i + 1:]))
+                for cand in cands:
+                    if fails(cand):
+                        cur = cand
+                        changed = True
+                        break
+            return cur
+        if c['kind'] == 'tjoin':
+            return c
         ops = list(c['ops'])
         changed = True
         while changed and len(ops) > 1:
@@ -1414,7 +1668,11 @@ class C36(Prop):
 
 
 # minimal witnesses of the two known defects of impute_type (known_findings.json)
+UNION_WITNESS = {'kind': 'tunion', 'unify': True,
+                 'tables': [[['annotate', [['a', 'i32', 'idx']]]],
+                            [['annotate', [['a', 'i32', 'idx']]], ['key_by', []], ['select', ['a', 'idx'], []], ['key_by', ['idx']]]]}
 IMPUTE_WITNESS = {
+    'union-key-position': UNION_WITNESS,
     'struct-union': {'kind': 'impute', 'value': {'list': [{'struct': [['a', {'i': 1}]]}, {'struct': [['b', {'i': 2}]]}]}},
     'clash-refilled': {'kind': 'impute', 'value': {'list': [{'list': [{'list': [{'i': 1}]}, {'list': [{'s': 'a'}]}]}, {'list': [{'list': [{'i': 2}]}]}]}},
 }
